@@ -115,6 +115,16 @@ def run(ctx, rep):
     if getattr(d, 'flag_invariant_used', False):
         rep.assume('need_flush read as false while the flush mutex is held means that no metadata is dirty only in RAM '
                    '(the flag protocol decided by C18.1/C18.2)')
+        # the invariant is only as good as the protocol: its sweep half (C18.2, fault-free closure) is decided here as well,
+        # so that a flusher which reads its own cleared flag as "nothing dirty" is reported by this check too
+        rep.rule('C18.2', 'a function that stores need_flush := false starts a complete sweep of every metadata kind after the store '
+                          'on every path to an Ok return (the invariant the flag read under the flush mutex relies on)')
+        for (rule, site), (ok, detail) in sorted(d.obl.items()):
+            if rule == 'C18.2':
+                rep.ob(rule, site, ok, detail)
+        for key, v in sorted(d.viol.items()):
+            if v['rule'] == 'C18.2':
+                rep.violation(v['rule'], key, v['where'], v['msg'], {'path': v['chain']})
     sites = {}
     for (kind, where), info in d.sites.items():
         sites.setdefault(kind, set()).add(where)
